@@ -65,11 +65,12 @@ Cases16 ==
        wp \in {<<8, P2>>, <<256, P1>>}, m \in {2, 3}, g \in {0, Big}}
   \cup {[w |-> World(Len16, P3), cfg |-> Cfg("hamt", "links", Big, 0, 0, 8, "none", "v0")]}
 Base16 ==
-  {c \in Cases16 : /\ c.cfg.width = 8 /\ c.cfg.stat = "none"
-                   /\ \/ c.cfg.est = "links" /\ <<c.cfg.gthr, c.cfg.thr, c.cfg.maxLinks>> \in {<<75, 0, 0>>, <<Big, 76, 0>>, <<Big, 114, 3>>}
-                      \/ c.cfg.est = "block" /\ <<c.cfg.gthr, c.cfg.thr, c.cfg.maxLinks>> \in {<<Big, 95, 0>>}
+  {c \in Cases16 : /\ c.cfg.width = 8
+                   /\ \/ /\ c.cfg.stat = "none" /\ c.cfg.est = "links"
+                         /\ <<c.cfg.gthr, c.cfg.thr, c.cfg.maxLinks>> \in {<<75, 0, 0>>, <<Big, 76, 0>>, <<Big, 114, 3>>}
+                      \/ /\ c.cfg.stat = "set" /\ c.cfg.est = "block"       \* 95 + 11 bytes of mode/mtime
+                         /\ <<c.cfg.gthr, c.cfg.thr, c.cfg.maxLinks>> = <<Big, 106, 0>>
                       \/ c.cfg.est = "disabled" /\ c.cfg.maxLinks = 2}
-
 One16 == {c \in Base16 : c.cfg.est = "links" /\ c.cfg.gthr = 75}
 
 (* ---- histories ---- *)
